@@ -2,7 +2,7 @@
 C02 (source tie) — the hand-written model of `CertifiedKey::wants_update`
 (`KM.CaK.CertKey.wantsUpdate`, Ca/Keys.lean) equals the definition that the translator `pure_fns`
 regenerates from `/repo/src/server/ca/keys.rs` on every run (`Generated/PureFnsC02.lean`,
-`KM.Gen.CertifiedKey.wants_update`).
+`KM.Gen.C02.CertifiedKey.wants_update`).
 
 `sync_idempotent`, `sync_converges_partial` and the key-sync lemmas (Props/C02.lean, Ca/LemmasKeySync.lean)
 are about `wantsUpdate`.  With `gen_wants_update_eq_model` it is tied to the Rust body: the order of the
@@ -26,9 +26,9 @@ open KM.CaK KM.Res
 /-- The definition generated from the body of `wants_update` is the model function – for every key,
 every entitled resource set, every pair of not-after times and every clock value. -/
 theorem gen_wants_update_eq_model (k : CertKey) (newRes : ResSet) (newNa now : Int) :
-    KM.Gen.CertifiedKey.wants_update k.cert.slash (seteq newRes k.cert.res) k.cert.all k.cert.na newNa now =
+    KM.Gen.C02.CertifiedKey.wants_update k.cert.slash (seteq newRes k.cert.res) k.cert.all k.cert.na newNa now =
       k.wantsUpdate newRes newNa now := by
-  unfold KM.Gen.CertifiedKey.wants_update CertKey.wantsUpdate
+  unfold KM.Gen.C02.CertifiedKey.wants_update CertKey.wantsUpdate
   generalize k.cert.slash = s
   generalize seteq newRes k.cert.res = e
   generalize k.cert.all = al
@@ -38,16 +38,71 @@ theorem gen_wants_update_eq_model (k : CertKey) (newRes : ResSet) (newNa now : I
 /-- Non-vacuity: the generated definition takes both values and reaches the 10 % margins and the
 one-week rule (cf. the `example` next to the model). -/
 example :
-    KM.Gen.CertifiedKey.wants_update false true false 1000 1000 0 = true ∧
-    KM.Gen.CertifiedKey.wants_update true false false 1000 1000 0 = true ∧
-    KM.Gen.CertifiedKey.wants_update true true false 1000 900 0 = false ∧
-    KM.Gen.CertifiedKey.wants_update true true false 1000 899 0 = true ∧
-    KM.Gen.CertifiedKey.wants_update true true false 1000 1100 0 = false ∧
-    KM.Gen.CertifiedKey.wants_update true true false 1000 1101 0 = true ∧
-    KM.Gen.CertifiedKey.wants_update true true false 100000000 (100000000 + 604800) 0 = true ∧
-    KM.Gen.CertifiedKey.wants_update true true false 100000000 (100000000 + 604799) 0 = false ∧
-    KM.Gen.CertifiedKey.wants_update true true true 100000000 (100000000 + 604799) 0 = true ∧
-    KM.Gen.CertifiedKey.wants_update true true false 1000 0 0 = false := by
+    KM.Gen.C02.CertifiedKey.wants_update false true false 1000 1000 0 = true ∧
+    KM.Gen.C02.CertifiedKey.wants_update true false false 1000 1000 0 = true ∧
+    KM.Gen.C02.CertifiedKey.wants_update true true false 1000 900 0 = false ∧
+    KM.Gen.C02.CertifiedKey.wants_update true true false 1000 899 0 = true ∧
+    KM.Gen.C02.CertifiedKey.wants_update true true false 1000 1100 0 = false ∧
+    KM.Gen.C02.CertifiedKey.wants_update true true false 1000 1101 0 = true ∧
+    KM.Gen.C02.CertifiedKey.wants_update true true false 100000000 (100000000 + 604800) 0 = true ∧
+    KM.Gen.C02.CertifiedKey.wants_update true true false 100000000 (100000000 + 604799) 0 = false ∧
+    KM.Gen.C02.CertifiedKey.wants_update true true true 100000000 (100000000 + 604799) 0 = true ∧
+    KM.Gen.C02.CertifiedKey.wants_update true true false 1000 0 0 = false := by
   decide
+
+/-! ### `keys_for_requests` of `KeyState::append_entitlement_events`
+
+For which keys a certificate is requested when entitlements arrive – per stage of a key roll.  The exchange theorems
+(`sync_converges_partial`, `exchange_converges`, Props/C02.lean) run on `KeyState.requestKeys`; the round-5 seeded change
+for C02 pushed, in `RollNew`, the request for the CURRENT key under the NEW key's id (the current key's certificate was
+never re-requested, the new key's re-issued on every second sync: no convergence).  The quirk of the `RollOld` arm – the
+request is made for the current key id when the OLD key wants an update – is in the source and in the model alike. -/
+
+def variantOf : KeyState → KM.Gen.C02.KeyState
+  | .pending _ => .Pending
+  | .active _ => .Active
+  | .rollPending .. => .RollPending
+  | .rollNew .. => .RollNew
+  | .rollOld .. => .RollOld
+
+def pendingKey (d : KeyId) : KeyState → KeyId
+  | .pending p => p.id | .rollPending p _ => p.id | _ => d
+def currentKey (d : KeyId) : KeyState → KeyId
+  | .active c => c.id | .rollPending _ c => c.id | .rollNew _ c => c.id | .rollOld c _ => c.id | _ => d
+def newKey (d : KeyId) : KeyState → KeyId
+  | .rollNew n _ => n.id | _ => d
+def oldKey (d : KeyId) : KeyState → KeyId
+  | .rollOld _ o => o.id | _ => d
+
+/-- `<key>.wants_update(…)` for the keys the variant has (`false` where it has no such key: never consulted). -/
+def currentWants (ent : Entitlement) (now : Int) : KeyState → Bool
+  | .active c => c.wantsUpdate ent.res ent.na now | .rollPending _ c => c.wantsUpdate ent.res ent.na now
+  | .rollNew _ c => c.wantsUpdate ent.res ent.na now | .rollOld c _ => c.wantsUpdate ent.res ent.na now | _ => false
+def newWants (ent : Entitlement) (now : Int) : KeyState → Bool
+  | .rollNew n _ => n.wantsUpdate ent.res ent.na now | _ => false
+def oldWants (ent : Entitlement) (now : Int) : KeyState → Bool
+  | .rollOld _ o => o.wantsUpdate ent.res ent.na now | _ => false
+
+/-- The first part of `append_entitlement_events` as translated from the source = the model's `requestKeys`, for every
+key state, entitlement and clock value. -/
+theorem gen_keys_for_requests_eq_model (ks : KeyState) (ent : Entitlement) (now : Int) (d : KeyId) :
+    KM.Gen.C02.KeyState.keys_for_requests (variantOf ks) (pendingKey d ks) (currentKey d ks) (newKey d ks) (oldKey d ks)
+      (currentWants ent now ks) (newWants ent now ks) (oldWants ent now ks) = ks.requestKeys ent now := by
+  cases ks with
+  | pending p => rfl
+  | active c =>
+    simp only [KM.Gen.C02.KeyState.keys_for_requests, variantOf, currentKey, currentWants, KeyState.requestKeys]
+    by_cases h : c.wantsUpdate ent.res ent.na now = true <;> simp [h]
+  | rollPending p c =>
+    simp only [KM.Gen.C02.KeyState.keys_for_requests, variantOf, pendingKey, currentKey, currentWants, KeyState.requestKeys]
+    by_cases h : c.wantsUpdate ent.res ent.na now = true <;> simp [h]
+  | rollNew n c =>
+    simp only [KM.Gen.C02.KeyState.keys_for_requests, variantOf, newKey, currentKey, currentWants, newWants,
+      KeyState.requestKeys]
+    by_cases h : n.wantsUpdate ent.res ent.na now = true <;> by_cases h' : c.wantsUpdate ent.res ent.na now = true <;> simp [h, h']
+  | rollOld c o =>
+    simp only [KM.Gen.C02.KeyState.keys_for_requests, variantOf, currentKey, currentWants, oldWants,
+      KeyState.requestKeys]
+    by_cases h : c.wantsUpdate ent.res ent.na now = true <;> by_cases h' : o.wantsUpdate ent.res ent.na now = true <;> simp [h, h']
 
 end KM.Props.C02Src
